@@ -211,8 +211,8 @@ impl Prop for C12 {
     }
     fn cases(&self, tier: Tier, build: &str) -> u32 {
         match (tier, build) {
-            (Tier::Quick, "fast") => 10_000,
-            (Tier::Quick, _) => 4_000,
+            (Tier::Quick, "fast") => 20_000,
+            (Tier::Quick, _) => 8_000,
             (Tier::Thorough, "fast") => 250_000,
             (Tier::Thorough, _) => 80_000,
         }
